@@ -73,6 +73,38 @@ func GoodLoopReturn(n int) error {
 	return err
 }
 
+// annotate always gives back an error when handed one; filterKnown does not.
+func annotate(what string, err error) error {
+	if errors.Is(err, context.Canceled) {
+		return fmt.Errorf("%s (cancelled): %w", what, err)
+	}
+	return fmt.Errorf("%s: %w", what, err)
+}
+
+func filterKnown(err error) (out error) {
+	switch err.(type) {
+	case interface{ Timeout() bool }:
+		out = fmt.Errorf("timeout: %w", err)
+	}
+	return out
+}
+
+// GoodWrapHelper: the failure is returned through a helper that keeps it.
+func GoodWrapHelper(i int) error {
+	if err := step(i); err != nil {
+		return annotate("step", err)
+	}
+	return nil
+}
+
+// BadWrapHelperDrops: the helper returns nil for failures it does not recognise.
+func BadWrapHelperDrops(i int) error {
+	if err := step(i); err != nil {
+		return filterKnown(err)
+	}
+	return nil
+}
+
 func GoodWrap(i int) error {
 	if err := step(i); err != nil {
 		return fmt.Errorf("wrap: %w", err)
